@@ -834,6 +834,14 @@ def csv_to_merchants_content(csv_rules: List[Tuple]) -> str:
 
         match_expr = " and ".join(parts) if parts else "true"
 
+        if not category and not tags:
+            # A CSV row with neither category nor tags never affects a transaction, but a
+            # .rules rule must have one of them - keep it as a comment instead of emitting
+            # a block that would make the whole file unloadable
+            lines.append(f"# Skipped (no category or tags): [{merchant}] match: {match_expr}")
+            lines.append("")
+            continue
+
         # Write rule block
         lines.append(f"[{merchant}]")
         lines.append(f"match: {match_expr}")
